@@ -292,7 +292,11 @@ class Check:
             "violations": len(self.violations),
         }
         ev["coverage"]["known_findings_hit"] = self.known_hit
-        with open(os.path.join(VERIF, "evidence", f"{self.prop}.json"), "w") as f:
+        # VERIF_EVIDENCE_DIR: experiments (seeded patches, thorough sweeps) write their evidence elsewhere so
+        # that the committed evidence/ always holds records of runs on the unchanged tree
+        evdir = os.environ.get("VERIF_EVIDENCE_DIR") or os.path.join(VERIF, "evidence")
+        os.makedirs(evdir, exist_ok=True)
+        with open(os.path.join(evdir, f"{self.prop}.json"), "w") as f:
             json.dump(ev, f, indent=1, default=str)
         if self.violations:
             for key, text, path, no_input in self.violations[:5]:
@@ -331,6 +335,7 @@ DRIVERS = {
     "pdriver": dict(name="pdriver", extract_v="theories/Extract/ExtractProgress.v", modname="pmodel"),
     "cdriver": dict(name="cdriver", extract_v="theories/Extract/ExtractContours.v", modname="cmodel"),
     "gdriver": dict(name="gdriver", extract_v="theories/Extract/ExtractGrid.v", modname="gmodel"),
+    "sgdriver": dict(name="sgdriver", extract_v="theories/Extract/ExtractSimplexGrid.v", modname="sgmodel"),
 }
 
 
